@@ -435,6 +435,16 @@ def rule_r6(ctx, F, rule='C04-R6'):
                 if org and all(isinstance(o, tuple) and o[0] == 'proj' and o[1] is head for o in org):
                     for o in org:
                         fed_projs.append(o[2])
+                else:
+                    # the components may be fed together, as a tuple built from them: `(key, value).hash(..)`
+                    # (a tuple hashes its fields in order, without framing)
+                    tv = noref(el.val(c.args[0]))
+                    if tv.kind == 'agg' and tv.key[0] == 'tuple' and not tv.fields():
+                        for o_ in tv.key[3]:
+                            o_ = noref(o_)
+                            if o_.kind == 'call' and o_.key == head.bb:
+                                fed_projs.append(tuple(q[3:] if q.startswith('as ') else q[1:]
+                                                       for q in o_.projs if q not in ('ref', 'deref')))
             fed = set()
             if comps == [()]:
                 if fed_projs:
